@@ -83,7 +83,7 @@ def owned_form(a, mode):
 
 def ref_form(a, b, mode):
     """The returned reference is the receiver's address reinterpreted: same base, offset 0, same mutability, pointee within the source's extent."""
-    calls = [c.fn for c in a.calls if c.fn not in PLUMBING and not c.fn.startswith("core::panicking::")]
+    calls = [c.fn for c in a.calls if c.fn not in PLUMBING and not c.fn.startswith("core::panicking::") and not a.is_pure(c) and not getattr(c, "no_effects", False)]
     if calls:
         return REFUTED, "calls in a pure reference reinterpretation: %s" % sorted(set(calls))
     tin, tout = a.local_ty(1), a.local_ty(0)
@@ -106,15 +106,19 @@ def check(ctx):
     for cfg in cfgs:
         check_const_transmute(ctx, cfg)
         n = 0
+        from .c09 import provenance_rule
+        from ..poly import Poly as _P
         for key, mode in OWNED:
-            b = ctx.body(cfg, key, "C11.E")
-            if b is None:
-                continue
-            a = ctx.analysis(cfg, key)
-            st, det = owned_form(a, mode)
-            ctx.ob("C11.E", key, st, det, at=b["at"], cfg=cfg)
-            ctx.sample({"rule": "C11.E", "fn": key, "cfg": cfg, "detail": det})
-            n += 1
+            # byte provenance: the result is exactly the bytes of self (all of them, from offset 0), self is moved and never dropped, no foreign call.
+            # unflatten is judged on its documented domain (N divides NM): the fact NM == N * floor(NM / N) is the precondition.
+            def pre(a, S, N, mode=mode):
+                if mode != "le":
+                    return []
+                g = a.body["generics"]
+                NM = a.tenv.length({"k": "param", "n": g[1]["n"]})
+                Nn = a.tenv.length({"k": "param", "n": g[2]["n"]})
+                return [("poly", "==", NM - Nn * _P.atom(("div", NM, Nn)))]
+            n += provenance_rule(ctx, cfg, key, lambda a, S, N: [[(a.tenv.size(a.local_ty(1)), ("arg", 1), _P.const(0))]], pre=pre, rule="C11.E")
         for key, mode in REFS:
             b = ctx.body(cfg, key, "C11.E")
             if b is None:
